@@ -310,6 +310,26 @@ func checkC19(p *core.Program, r *core.Report) {
 	}
 	r.Extra["o19_2_exceptions"] = exNotes
 	ord := map[string]int{}
+	// decorators of actions hand the action's verdict on: every return of the function they produce is the wrapped
+	// action's result or a freshly made error
+	doneDeco := map[ast.Node]bool{}
+	for _, c := range cmds {
+		for _, d := range c.Decorators {
+			if doneDeco[d.Node] {
+				continue
+			}
+			doneDeco[d.Node] = true
+			obj, _ := d.Pkg.TypesInfo.Defs[d.Node.(*ast.FuncDecl).Name].(*types.Func)
+			df := p.SSA.FuncValue(obj)
+			why := ""
+			if df == nil {
+				why = "no SSA for the decorator"
+			} else {
+				why = decoratorKeepsVerdict(df)
+			}
+			r.Check(why == "", "O19.2", d.Name+": action decorator hands the action's error on", p.Pos(d.Node.Pos()), "every return of the produced action is the wrapped action's result or a new error", why)
+		}
+	}
 	for _, c := range cmds {
 		if c.Action.Node == nil {
 			r.Violation("O19.2", "main.cmd:"+c.Name, p.Pos(c.Lit.Pos()), "command has no analysable Action function")
@@ -770,6 +790,7 @@ func checkLogSinks(p *core.Program, r *core.Report, ix *funcIndex, mainUnit flow
 		// (a global option handled in cli.App.Before runs for every command)
 		roots := []flow.FuncUnit{c.Action}
 		roots = append(roots, hookUnits(c.Pkg, c.Lit)...)
+		roots = append(roots, c.Decorators...)
 		roots = append(roots, appHookUnits(p)...)
 		for _, u := range ix.closure(roots) {
 			if n, ok := isWriter[u.Node]; ok {
@@ -898,4 +919,92 @@ func isOsVarSSA(v ssa.Value) bool {
 		}
 	}
 	return false
+}
+
+// decoratorKeepsVerdict: deco(action) returns a closure; each of the closure's returns yields the result of calling the
+// captured action, or a certainly non-nil error.
+func decoratorKeepsVerdict(deco *ssa.Function) string {
+	var actionParam *ssa.Parameter
+	for _, prm := range deco.Params {
+		if _, ok := prm.Type().Underlying().(*types.Signature); ok {
+			actionParam = prm
+		}
+	}
+	if actionParam == nil {
+		return "the decorator takes no action"
+	}
+	n := 0
+	for _, b := range deco.Blocks {
+		ret, ok := b.Instrs[len(b.Instrs)-1].(*ssa.Return)
+		if !ok || len(ret.Results) != 1 {
+			continue
+		}
+		v := ret.Results[0]
+		for {
+			if ct, ok := v.(*ssa.ChangeType); ok {
+				v = ct.X
+				continue
+			}
+			break
+		}
+		if v == ssa.Value(actionParam) {
+			n++
+			continue // returns the action unchanged
+		}
+		mc, ok := v.(*ssa.MakeClosure)
+		if !ok {
+			return "the decorator returns something other than a closure over the action"
+		}
+		cl := mc.Fn.(*ssa.Function)
+		for _, cb := range cl.Blocks {
+			cr, ok := cb.Instrs[len(cb.Instrs)-1].(*ssa.Return)
+			if !ok || len(cr.Results) != 1 {
+				continue
+			}
+			n++
+			if k, isConst := cr.Results[0].(*ssa.Const); isConst && k.Value == nil {
+				return "the produced action can return nil without returning the wrapped action's result"
+			}
+			for _, o := range ssaOrigins(cr.Results[0], nil) {
+				c, isCall := o.V.(*ssa.Call)
+				if !isCall {
+					return "the produced action returns " + o.V.String() + ", not the wrapped action's result"
+				}
+				if sc := c.Common().StaticCallee(); sc != nil {
+					if full := sc.String(); full == "fmt.Errorf" || full == "errors.New" {
+						continue
+					}
+					return "the produced action returns the result of " + sc.String() + ", not of the wrapped action"
+				}
+				// dynamic call: through the captured action
+				okAction := false
+				val := c.Common().Value
+				if ld, isLoad := val.(*ssa.UnOp); isLoad {
+					val = ld.X
+				}
+				for k, fv := range cl.FreeVars {
+					if ssa.Value(fv) == val && k < len(mc.Bindings) {
+						bv := mc.Bindings[k]
+						if bv == ssa.Value(actionParam) {
+							okAction = true
+						}
+						if al, isAl := bv.(*ssa.Alloc); isAl {
+							for _, ref := range *al.Referrers() {
+								if st, isSt := ref.(*ssa.Store); isSt && st.Addr == ssa.Value(al) && st.Val == ssa.Value(actionParam) {
+									okAction = true
+								}
+							}
+						}
+					}
+				}
+				if !okAction {
+					return "the produced action returns the result of a call that is not the wrapped action"
+				}
+			}
+		}
+	}
+	if n == 0 {
+		return "no return found in the decorator"
+	}
+	return ""
 }
